@@ -16,7 +16,7 @@ def sl(n): return ','.join('St<%d>' % i for i in range(n))
 def mjob(name, prop, N=3, L=4, K=2, unwind=None, timeout=300, **defs):
     d = dict(NSTATES=N, STATE_LIST=sl(N), LIMIT=L, KSTEPS=K, PROP=prop)
     d.update(defs)
-    return Job(name, 'machine.cpp', d, unwind=unwind or 40, timeout=timeout, prop=(prop * 100, prop * 100 + 99))
+    return Job(name, 'machine.cpp', d, unwind=unwind or 40, unwindset={'nondet_fill.0': 96}, timeout=timeout, prop=(prop * 100, prop * 100 + 99))
 
 HIST = dict(FFSM2_ENABLE_TRANSITION_HISTORY='')
 SER = dict(FFSM2_ENABLE_SERIALIZATION='')
@@ -33,10 +33,10 @@ def c01_jobs(tier, prop=1):
         J.append(mjob('m-n3-k3', prop, N=3, K=3, OPS=CORE, timeout=T))
         J.append(mjob('m-n3-k2-events', prop, N=3, K=2, OPS=EVENTS | 1, timeout=T))
         J.append(mjob('m-n3-k2-head', prop, N=3, K=2, HEAD=1, OPS=CORE, timeout=T))
-        J.append(mjob('m-n3-k3-manual', prop, N=3, K=3, MANUAL=1, OPS=CORE | 128, timeout=T))
-        J.append(mjob('m-n3-k2-manual-head', prop, N=3, K=2, MANUAL=1, HEAD=1, OPS=CORE | 128, timeout=T))
-        J.append(mjob('m-n3-k2-payload', prop, N=3, K=2, PAYLOAD=5, OPS=CORE, timeout=T))
-        J.append(mjob('m-n3-k3-replay-saveload', prop, N=3, K=3, MANUAL=1, OPS=1 | 16 | 32 | 64 | 128, timeout=T, **dict(HIST, **SER)))
+        J.append(mjob('m-n3-k2-manual', prop, N=3, K=2, MANUAL=1, OPS=CORE | 128, timeout=T))
+        J.append(mjob('m-n3-l2-k2-manual-head', prop, N=3, L=2, K=2, MANUAL=1, HEAD=1, OPS=CORE | 128, timeout=T))
+        J.append(mjob('m-n3-l2-k2-payload', prop, N=3, L=2, K=2, PAYLOAD=5, OPS=CORE, timeout=T))
+        J.append(mjob('m-n3-l2-k3-replay-saveload', prop, N=3, L=2, K=3, MANUAL=1, OPS=1 | 16 | 32 | 64 | 128, timeout=T, **dict(HIST, **SER)))
         J.append(mjob('m-n4-ind', prop, N=4, K=1, INDUCTIVE=1, OPS=ALLOPS, timeout=T, **HIST))
         J.append(mjob('m-n3-ind-head', prop, N=3, K=1, INDUCTIVE=1, HEAD=1, OPS=ALLOPS, timeout=T))
     else:
@@ -56,6 +56,94 @@ def c01_jobs(tier, prop=1):
         for n in (1, 2, 3, 4, 5):
             J.append(mjob('m-n%d-ind' % n, prop, N=n, K=1, INDUCTIVE=1, OPS=ALLOPS, timeout=T, **HIST))
             J.append(mjob('m-n%d-ind-head-manual' % n, prop, N=n, K=1, INDUCTIVE=1, HEAD=1, MANUAL=1, OPS=ALLOPS, timeout=T))
+    return J
+
+def c04_jobs(tier):
+    T = 300 if tier == 'quick' else 1500
+    J = []
+    Ls = (1, 2, 4) if tier == 'quick' else (1, 2, 3, 4, 5, 6, 7, 8)
+    for l in Ls:
+        k = 2 if l <= 4 else 1
+        J.append(mjob('m-n3-l%d' % l, 4, N=3, L=l, K=k, OPS=CORE, unwind=max(40, l + 3), timeout=T))
+        J.append(mjob('m-n2-l%d-pingpong' % l, 4, N=2, L=l, K=k, OPS=CORE, PINGPONG=1, unwind=max(40, l + 3), timeout=T))
+    J.append(mjob('m-n3-l2-manual-head', 4, N=3, L=2, K=2, MANUAL=1, HEAD=1, OPS=CORE | 128, timeout=T))
+    J.append(mjob('m-n3-l4-pingpong-head', 4, N=3, L=4, K=2, HEAD=1, OPS=CORE, PINGPONG=1, timeout=T))
+    J.append(mjob('m-n3-l2-ind', 4, N=3, L=2, K=1, INDUCTIVE=1, OPS=ALLOPS, timeout=T))
+    if tier != 'quick':
+        J.append(mjob('m-n4-l4-k3', 4, N=4, L=4, K=3, OPS=CORE, timeout=T))
+        J.append(mjob('m-n3-l4-k3-pingpong-manual', 4, N=3, L=4, K=3, MANUAL=1, OPS=CORE | 128, PINGPONG=1, timeout=T))
+        J.append(mjob('m-n5-l4-ind', 4, N=5, L=4, K=1, INDUCTIVE=1, OPS=ALLOPS, timeout=T))
+        J.append(mjob('m-n3-l3-events-payload', 4, N=3, L=3, K=2, PAYLOAD=3, OPS=EVENTS | 1 | 16, timeout=T))
+    return J
+
+def c05_jobs(tier):
+    T = 300 if tier == 'quick' else 1500
+    J = []
+    PH = 1 | 2 | 4 | 8          # update, react, query, changeTo
+    if tier == 'quick':
+        for evt in (0, 1, 2): J.append(mjob('m-n3-evt%d' % evt, 5, N=3, K=2, EVT=evt, OPS=PH, timeout=T))
+        J.append(mjob('m-n3-head-evt0', 5, N=3, K=2, HEAD=1, EVT=0, OPS=PH, timeout=T))
+        J.append(mjob('m-n2-head-evt2', 5, N=2, K=2, HEAD=1, EVT=2, OPS=PH, timeout=T))
+        J.append(mjob('m-n1-evt1', 5, N=1, K=2, EVT=1, OPS=PH, timeout=T))
+        J.append(mjob('m-n4-ind-head', 5, N=4, K=1, INDUCTIVE=1, HEAD=1, OPS=PH | 16, timeout=T))
+        J.append(mjob('m-n3-manual', 5, N=3, K=2, MANUAL=1, OPS=PH | 128, timeout=T))
+    else:
+        for evt in (0, 1, 2):
+            for head in (0, 1):
+                J.append(mjob('m-n3-evt%d-head%d-k3' % (evt, head), 5, N=3, K=3, EVT=evt, HEAD=head, OPS=PH, timeout=T))
+        for n in (1, 2, 4, 5):
+            J.append(mjob('m-n%d-k3' % n, 5, N=n, K=3, OPS=PH, timeout=T))
+            J.append(mjob('m-n%d-ind-head' % n, 5, N=n, K=1, INDUCTIVE=1, HEAD=1, OPS=PH | 16, timeout=T))
+        J.append(mjob('m-n3-manual-head-payload', 5, N=3, K=3, MANUAL=1, HEAD=1, PAYLOAD=3, OPS=PH | 16 | 128, timeout=T))
+    return J
+
+def c06_jobs(tier):
+    T = 400 if tier == 'quick' else 1800
+    J = []
+    if tier == 'quick':
+        for ctx in (1, 2, 3): J.append(mjob('m-n3-ctx%d' % ctx, 6, N=3, K=1, CONTEXT=ctx, HEAD=1, OPS=ALLOPS, timeout=T))
+        J.append(mjob('m-n3-k2', 6, N=3, K=2, OPS=CORE, timeout=T))
+        J.append(mjob('m-n2-k2-events-head', 6, N=2, K=2, HEAD=1, OPS=EVENTS | 1, timeout=T))
+        J.append(mjob('m-n3-ind', 6, N=3, K=1, INDUCTIVE=1, OPS=ALLOPS, timeout=T))
+        J.append(mjob('m-n3-manual-payload', 6, N=3, K=2, MANUAL=1, PAYLOAD=3, OPS=CORE | 128, timeout=T))
+    else:
+        for ctx in (1, 2, 3):
+            J.append(mjob('m-n3-ctx%d-k2' % ctx, 6, N=3, K=2, CONTEXT=ctx, HEAD=1, OPS=ALLOPS, timeout=T))
+            J.append(mjob('m-n4-ctx%d-ind' % ctx, 6, N=4, K=1, CONTEXT=ctx, INDUCTIVE=1, HEAD=1, OPS=ALLOPS, timeout=T))
+        for n in (1, 2, 3, 4, 5): J.append(mjob('m-n%d-k3' % n, 6, N=n, K=3, OPS=CORE, timeout=T))
+        J.append(mjob('m-n3-k3-events-head', 6, N=3, K=3, HEAD=1, OPS=EVENTS | 1, timeout=T))
+        J.append(mjob('m-n3-k3-manual-payload', 6, N=3, K=3, MANUAL=1, PAYLOAD=3, OPS=CORE | 128, timeout=T))
+        J.append(mjob('m-n3-k3-history-serial', 6, N=3, K=3, MANUAL=1, OPS=ALLOPS, timeout=T, **dict(HIST, **SER)))
+    return J
+
+def c07_jobs(tier):
+    T = 400 if tier == 'quick' else 1800
+    J = []
+    kinds = (1, 2, 3, 4, 5, 6) if tier == 'quick' else tuple(range(1, 17))
+    L = 2 if tier == 'quick' else 4
+    for k in kinds:
+        J.append(mjob('m-n3-l%d-pay%d' % (L, k), 7, N=3, L=L, K=2, PAYLOAD=k, OPS=CORE, timeout=T, **HIST))
+    J.append(mjob('m-n2-l2-pay5-head-manual', 7, N=2, L=2, K=2, PAYLOAD=5, HEAD=1, MANUAL=1, OPS=CORE | 128, timeout=T, **HIST))
+    J.append(mjob('m-n3-pay3-ind', 7, N=3, K=1, PAYLOAD=3, INDUCTIVE=1, OPS=ALLOPS, timeout=T, **HIST))
+    if tier != 'quick':
+        J.append(mjob('m-n3-pay5-k3-events', 7, N=3, K=3, PAYLOAD=5, OPS=EVENTS | 1 | 16, timeout=T, **HIST))
+        J.append(mjob('m-n4-pay9-k3', 7, N=4, K=3, PAYLOAD=9, OPS=CORE, timeout=T, **HIST))
+    return J
+
+def c11_machine_jobs(tier):
+    T = 400 if tier == 'quick' else 1800
+    J = []
+    RP = CORE | 32
+    if tier == 'quick':
+        J.append(mjob('m-n3-k3', 11, N=3, K=3, OPS=RP, timeout=T, **HIST))
+        J.append(mjob('m-n3-k2-head-payload', 11, N=3, K=2, HEAD=1, PAYLOAD=5, OPS=RP, timeout=T, **HIST))
+        J.append(mjob('m-n3-k3-manual', 11, N=3, K=3, MANUAL=1, OPS=RP | 128, timeout=T, **HIST))
+        J.append(mjob('m-n4-ind', 11, N=4, K=1, INDUCTIVE=1, OPS=ALLOPS, timeout=T, **HIST))
+    else:
+        for n in (1, 2, 3, 4): J.append(mjob('m-n%d-k4' % n, 11, N=n, K=4, OPS=RP, timeout=T, **HIST))
+        J.append(mjob('m-n3-k3-head-payload', 11, N=3, K=3, HEAD=1, PAYLOAD=5, OPS=RP, timeout=T, **HIST))
+        J.append(mjob('m-n3-k4-manual', 11, N=3, K=4, MANUAL=1, OPS=RP | 128, timeout=T, **HIST))
+        for n in (2, 3, 4, 5): J.append(mjob('m-n%d-ind' % n, 11, N=n, K=1, INDUCTIVE=1, OPS=ALLOPS, timeout=T, **HIST))
     return J
 
 def encoded_functions(job, work, inc):
@@ -82,4 +170,11 @@ PROPS = {
                 outside='N>5; K beyond the bound for the history variant (the inductive variant has no K but trusts the invariant active<N, requested==invalid, request.destination<N or invalid); concurrent or re-entrant use; callbacks that throw'),
     'C02': dict(range=(200, 299), jobs=lambda t: c01_jobs(t, 2), bounds=B_MACHINE, outside='as C01; plan-issued requests are judged under C08'),
     'C03': dict(range=(300, 399), jobs=lambda t: c01_jobs(t, 3), bounds=B_MACHINE, outside='as C01'),
+    'C04': dict(range=(400, 499), jobs=c04_jobs, bounds=dict(quick='L in {1,2,4}, N in {2,3}, K=2, free guards and ping-pong guards (every guard redirects), activation included', thorough='L in 1..8, N<=5, K<=3'), outside='L>8'),
+    'C05': dict(range=(500, 599), jobs=c05_jobs, bounds=dict(quick='N in {1,2,3} (+4 inductive), K=2, event types int / packed 3-byte / 40-byte, with and without root head', thorough='N in 1..5, K=3'), outside='event types outside the three encoded'),
+    'C06': dict(range=(600, 699), jobs=c06_jobs, bounds=dict(quick='N<=3, K<=2, value/reference/pointer context, all four control flavours, symbolic queried id', thorough='N<=5, K<=3'), outside='as C01'),
+    'C07': dict(range=(700, 799), jobs=c07_jobs, bounds=dict(quick='payload types 1..6 of the family (sizes 1..8, alignments 1..8), N=3, K=2', thorough='all 16 payload types (sizes 1..24, alignments 1..16)'), outside='payload types outside the family; non-trivially-copyable payloads; plan-task payloads are checked in the plan harness'),
+    'C11': dict(range=(1100, 1199), jobs=c11_machine_jobs, bounds=dict(quick='N<=4, K<=3', thorough='N<=5, K<=4'), outside='as C01'),
 }
+
+NOT_YET = {}
